@@ -29,7 +29,14 @@ TECHNIQUE = "property-based testing against a nested-loop reference over generat
 LEVEL_TEXT = "Exploration (plus a small exhaustive core): thousands of generated signatures and mapping orders compared with nested loops."
 
 COEF = [0.7310585786, 1.4142135624, -2.2360679775, 3.1415926536, -0.5772156649]
-NAMES = ["a", "b", "c", "d", "e"]
+# two of the names are names lcm itself uses for special arguments: a mapped or bound argument may
+# be called like that (the statement quantifies over all functions)
+NAMES = ["a", "params", "c", "vf_arr", "e"]
+_OLD_NAMES = ["a", "b", "c", "d", "e"]  # names in replay files saved before the pool was changed
+
+
+def _idx(n):
+    return NAMES.index(n) if n in NAMES else _OLD_NAMES.index(n)
 LENS = [2, 3, 4, 5, 6]
 
 
@@ -76,7 +83,7 @@ def strategy(tier):
 
 def fixed_cases(tier):
     out = []
-    names = ["a", "b", "c", "d"]
+    names = NAMES[:4]
     for outk in ("scalar", "tuple", "dict"):
         for k in range(1, 5):
             for mapped in itertools.permutations(names, k):
@@ -95,10 +102,10 @@ def make_func(sig, xp_name="jnp", default_last=False):
         parts.append(n + "=7.5" if (default_last and i + 1 == len(names)) else n)
         if k == "po" and (i + 1 == len(names) or kinds[i + 1] != "po"):
             parts.append("/")
-    lin = " + ".join(f"{COEF[NAMES.index(n)]!r} * {n}" for n in names)
+    lin = " + ".join(f"{COEF[_idx(n)]!r} * {n}" for n in names)
     prod = " * ".join(f"({n} + {i + 1}.5)" for i, n in enumerate(names))
     e1 = f"{lin} + 0.01 * {prod}"
-    e2 = " - ".join(f"{COEF[(NAMES.index(n) + 2) % 5]!r} * {n}" for n in names)
+    e2 = " - ".join(f"{COEF[(_idx(n) + 2) % 5]!r} * {n}" for n in names)
     # non-scalar leaves: a length-4 vector (4 = the joint-map length, so that a misplaced
     # axis is not always visible in the shape and must be caught by values)
     vec = f"xp.stack([{e1}, {e2}, 2.0 * ({e1}), ({e2}) - 1.0])"
@@ -136,14 +143,14 @@ def check_map(case):
     names = sig["names"]
     mapped = case["mapped"]
     kind = case["kind"]
-    scal = {n: case["vals"][NAMES.index(n)] for n in names}
+    scal = {n: case["vals"][_idx(n)] for n in names}
     arrs = {}
     joint_len = 4
     for n in mapped:
-        L = LENS[NAMES.index(n)]
+        L = LENS[_idx(n)]
         if kind == "vmap_1d" or (kind == "spacemap" and n in case["sparse"]):
             L = joint_len
-        arrs[n] = scal[n] + 0.5 * np.arange(L) * (1 + NAMES.index(n))
+        arrs[n] = scal[n] + 0.5 * np.arange(L) * (1 + _idx(n))
     kw = {n: (jnp.asarray(arrs[n]) if n in arrs else scal[n]) for n in case["kw_order"]}
     if kind == "productmap":
         g = call_lcm(productmap, f, list(mapped))
@@ -217,7 +224,7 @@ def check_wrap(case):
     sig = case["sig"]
     f, src = make_func(sig)
     names = sig["names"]
-    vals = {n: case["vals"][NAMES.index(n)] for n in names}
+    vals = {n: case["vals"][_idx(n)] for n in names}
     exp = leaves(call_by_name(f, sig, vals))
     msgs = []
     kw = {n: vals[n] for n in case["kw_order"]}
